@@ -3,7 +3,7 @@
    IRCP.InvNick (effects of the single operations), IRCP.ViewsP (what NAMES and WHOIS print).  The
    WHO text and the announcement-derived rosters are checked by the correspondence oracles (L2). *)
 From IRC Require Import Str Wild Glob Parse Reply State Handlers Step.
-From IRCP Require Import MsgP InvDefs InvPrims InvNick InvStep Reach ViewsP AnnounceMembersP.
+From IRCP Require Import MsgP InvDefs InvPrims InvNick InvStep Reach ViewsP AnnounceMembersP MembersFrame MembersGlobal.
 From stdpp Require Import gmap.
 
 Section C04.
@@ -145,6 +145,33 @@ Theorem C04_views_agree : forall s n u ch co, InvS s -> users s !! n = Some u ->
   (n ∈ dom (ch_users co) <-> ch ∈ u_chans u).
 Proof. exact views_agree. Qed.
 
+(* FOLLOWS THE HISTORY, over every event of every connection (lines of any content, closes, timer events, new
+   connections): a user record found after a step has the memberships of a record of the same connection before
+   the step (under the same nick, or - NICK - under the old one), unless the event is a line of a registered
+   connection whose command is JOIN (only the sender's set changes, and it only grows), PART (only the sender's,
+   and it only shrinks), KICK (a set loses at most the named channel), or the record has just been created by a
+   completed registration and has no membership.  Records disappear only with their session (C06). *)
+Theorem C04_membership_follows_commands : forall w i e w' o cl, Inv w -> step cfg verify w i e = Ok (w', o, cl) ->
+  forall n u', users (sh w') !! n = Some u' -> step_member_source w i e n u'.
+Proof. exact (membership_follows_commands cfg verify). Qed.
+
+(* ... hence a membership appears only through the user's own JOIN *)
+Theorem C04_gained_only_by_own_join : forall w i e w' o cl n u' n0 u ch, Inv w -> step cfg verify w i e = Ok (w', o, cl) ->
+  users (sh w') !! n = Some u' -> users (sh w) !! n0 = Some u -> u_conn u = u_conn u' ->
+  ch ∈ u_chans u' -> ch ∉ u_chans u ->
+  u_conn u' = i /\ exists c l msg chs keys, conns w !! i = Some c /\ c_auth c = true /\ e = EvLine l /\ tokenize l = inl msg /\
+                                             command_of_message msg = inl (JOIN chs keys).
+Proof. exact (membership_gained_only_by_own_join cfg verify). Qed.
+
+(* ... and a user who stays connected loses a membership only through its own PART or a KICK naming that channel *)
+Theorem C04_lost_only_by_part_or_kick : forall w i e w' o cl n u' n0 u ch, Inv w -> step cfg verify w i e = Ok (w', o, cl) ->
+  users (sh w') !! n = Some u' -> users (sh w) !! n0 = Some u -> u_conn u = u_conn u' ->
+  ch ∈ u_chans u -> ch ∉ u_chans u' ->
+  exists c l msg, conns w !! i = Some c /\ c_auth c = true /\ e = EvLine l /\ tokenize l = inl msg /\
+    ((u_conn u' = i /\ exists chs reason, command_of_message msg = inl (PART chs reason)) \/
+     (exists vs comment, command_of_message msg = inl (KICK ch vs comment))).
+Proof. exact (membership_lost_only_by_part_or_kick cfg verify). Qed.
+
 End C04.
 
 Print Assumptions C04_symmetric.
@@ -161,3 +188,6 @@ Print Assumptions C04_kick_announced.
 Print Assumptions C04_join_output.
 Print Assumptions C04_join_announced.
 Print Assumptions C04_join_refused_silent.
+Print Assumptions C04_membership_follows_commands.
+Print Assumptions C04_gained_only_by_own_join.
+Print Assumptions C04_lost_only_by_part_or_kick.
